@@ -814,6 +814,10 @@ class DirectoryRecord:
                     raise pycdlibexception.PyCdlibInvalidInput('Failed adding duplicate Rock Ridge name to parent')
 
         if is_duplicate:
+            # The new record continues the last of the records that already
+            # have this name (a file of more than two extents).
+            while index + 1 < len(self.children) and self.children[index + 1].file_ident == child.file_ident:
+                index += 1
             self.children[index].data_continuation = child
             self.children[index].file_flags |= (1 << self.FILE_FLAG_MULTI_EXTENT_BIT)
             index += 1
